@@ -180,11 +180,20 @@ def run_pca(ctx, rng, comp, d, centre, kind):
         # (the constructor centres in place and therefore wants floating point data; increments take the samples as they come)
         chunks = [chunks[0]] + [c.astype(np.int64) for c in chunks[1:]]
     m = PCAVectorModel(chunks[0].copy(), centre=centre)
+    # a second model built from the first one's decomposition (an alternative constructor): it may share arrays with it, and
+    # must not change when the first model learns more
+    sibling = PCAVectorModel.init_from_components(m._components, m._eigenvalues, m._mean, m.n_samples, centre)
+    sib_state = (sibling._components.copy(), sibling._eigenvalues.copy(), sibling._mean.copy(), sibling.n_samples)
     for c in chunks[1:]:
         if m.n_components > 1 and rng.random() < 0.35:
             # lowering the active count is documented as non-destructive: later increments see the whole model
             m.n_active_components = int(rng.integers(1, m.n_components)) if rng.random() < 0.6 else float(rng.uniform(0.3, 0.9)) * m._total_variance_ratio()
         m.increment(c.copy() if rng.random() < 0.5 else [row.copy() for row in c])
+    ctx.tap("sibling_model_untouched", "calls"); ctx.tap("sibling_model_untouched", "checked")
+    if (not np.array_equal(sibling._components, sib_state[0]) or not np.array_equal(sibling._eigenvalues, sib_state[1])
+            or not np.array_equal(sibling._mean, sib_state[2]) or sibling.n_samples != sib_state[3]):
+        ctx.fail("incrementing_one_model_changed_another_model_built_from_its_decomposition", cls="PCAVectorModel",
+                 mech="mean" if not np.array_equal(sibling._mean, sib_state[2]) else "other")
     return m, X
 
 
